@@ -35,10 +35,10 @@ impl CelByteCode {
     { self.inner.push(code_point); }
 }
 
-// ---------- spec ----------
+// ---------- spec (written from C10: "every jump lands inside its block or exactly at its end") ----------
 pub open spec fn is_label(c: PreResolvedCodePoint) -> bool { c is Label }
 
-/// number of non-label code points in s[0..n)
+/// number of non-label code points in s[0..n)  == index of the instruction a label at n resolves to
 pub open spec fn nl_count(s: Seq<PreResolvedCodePoint>, n: int) -> int
     decreases n
 {
@@ -48,11 +48,12 @@ pub open spec fn nl_count(s: Seq<PreResolvedCodePoint>, n: int) -> int
 pub open spec fn label_at(s: Seq<PreResolvedCodePoint>, i: int, l: u32) -> bool {
     0 <= i < s.len() && s[i] == PreResolvedCodePoint::Label(l)
 }
-
+pub open spec fn label_exists(s: Seq<PreResolvedCodePoint>, l: u32) -> bool {
+    exists|j: int| label_at(s, j, l)
+}
 pub open spec fn labels_unique(s: Seq<PreResolvedCodePoint>) -> bool {
     forall|i: int, j: int, l: u32| label_at(s, i, l) && label_at(s, j, l) ==> i == j
 }
-
 pub open spec fn jump_label(c: PreResolvedCodePoint) -> Option<u32> {
     match c {
         PreResolvedCodePoint::Jmp { label } => Some(label),
@@ -60,12 +61,9 @@ pub open spec fn jump_label(c: PreResolvedCodePoint) -> Option<u32> {
         _ => None,
     }
 }
-
 pub open spec fn labels_defined(s: Seq<PreResolvedCodePoint>) -> bool {
-    forall|i: int| 0 <= i < s.len() && jump_label(s[i]) is Some ==>
-        exists|j: int| label_at(s, j, jump_label(s[i])->Some_0)
+    forall|i: int| 0 <= i < s.len() && (#[trigger] jump_label(s[i])) is Some ==> label_exists(s, jump_label(s[i])->Some_0)
 }
-
 pub open spec fn jump_ok_n(r: Seq<ByteCode>, k: int, n: int) -> bool {
     match r[k] {
         ByteCode::Jmp(d) => 0 <= k + 1 + d <= n,
@@ -73,10 +71,23 @@ pub open spec fn jump_ok_n(r: Seq<ByteCode>, k: int, n: int) -> bool {
         _ => true,
     }
 }
-pub open spec fn jump_ok(r: Seq<ByteCode>, k: int) -> bool { jump_ok_n(r, k, r.len() as int) }
-pub open spec fn loc_table_ok(s: Seq<PreResolvedCodePoint>, m: Map<u32, usize>) -> bool {
-    &&& forall|l: u32| m.contains_key(l) ==> exists|j: int| label_at(s, j, l) && m[l] == nl_count(s, j)
-    &&& forall|j: int, l: u32| label_at(s, j, l) ==> m.contains_key(l)
+/// already-resolved (relative) jumps that check_for_const re-embeds as plain Bytecode must stay in range
+pub open spec fn raw_jump_ok(s: Seq<PreResolvedCodePoint>, i: int) -> bool {
+    match s[i] {
+        PreResolvedCodePoint::Bytecode(ByteCode::Jmp(d)) => 0 <= nl_count(s, i) + 1 + d <= nl_count(s, s.len() as int),
+        PreResolvedCodePoint::Bytecode(ByteCode::JmpCond { dist, .. }) => 0 <= nl_count(s, i) + 1 + dist <= nl_count(s, s.len() as int),
+        _ => true,
+    }
+}
+pub open spec fn raw_jumps_ok(s: Seq<PreResolvedCodePoint>) -> bool {
+    forall|i: int| 0 <= i < s.len() ==> #[trigger] raw_jump_ok(s, i)
+}
+pub open spec fn all_jumps_ok(r: Seq<ByteCode>, n: int) -> bool {
+    forall|k: int| 0 <= k < r.len() ==> #[trigger] jump_ok_n(r, k, n)
+}
+pub open spec fn loc_table_ok(s: Seq<PreResolvedCodePoint>, m: Map<u32, usize>, upto: int) -> bool {
+    &&& forall|l: u32| #[trigger] m.contains_key(l) ==> exists|j: int| 0 <= j < upto && label_at(s, j, l) && m[l] == nl_count(s, j)
+    &&& forall|j: int, l: u32| 0 <= j < upto && #[trigger] label_at(s, j, l) ==> m.contains_key(l)
 }
 
 pub proof fn lemma_nl_count_bounds(s: Seq<PreResolvedCodePoint>, n: int)
@@ -86,7 +97,6 @@ pub proof fn lemma_nl_count_bounds(s: Seq<PreResolvedCodePoint>, n: int)
 {
     if n > 0 { lemma_nl_count_bounds(s, n - 1); }
 }
-
 pub proof fn lemma_nl_count_mono(s: Seq<PreResolvedCodePoint>, a: int, b: int)
     requires 0 <= a <= b <= s.len()
     ensures nl_count(s, a) <= nl_count(s, b)
@@ -94,18 +104,30 @@ pub proof fn lemma_nl_count_mono(s: Seq<PreResolvedCodePoint>, a: int, b: int)
 {
     if a < b { lemma_nl_count_mono(s, a, b - 1); }
 }
+pub proof fn lemma_lookup(s: Seq<PreResolvedCodePoint>, m: Map<u32, usize>, l: u32)
+    requires loc_table_ok(s, m, s.len() as int), label_exists(s, l)
+    ensures m.contains_key(l), 0 <= m[l] <= nl_count(s, s.len() as int)
+{
+    let j = choose|j: int| label_at(s, j, l);
+    assert(label_at(s, j, l));
+    assert(m.contains_key(l));
+    let j2 = choose|j2: int| 0 <= j2 < s.len() && label_at(s, j2, l) && m[l] == nl_count(s, j2);
+    lemma_nl_count_bounds(s, j2);
+    lemma_nl_count_mono(s, j2, s.len() as int);
+}
 
 impl PreResolvedByteCode {
     pub closed spec fn view(&self) -> Seq<PreResolvedCodePoint> { self.inner@ }
+
     pub fn resolve(self) -> (ret: CelByteCode)
         requires
             labels_unique(self@),
             labels_defined(self@),
+            raw_jumps_ok(self@),
             self@.len() < 0x7fff_ffff,
         ensures
             ret@.len() == nl_count(self@, self@.len() as int),
-            // every resolved jump lands inside the block or exactly at its end
-            forall|k: int| 0 <= k < ret@.len() ==> jump_ok(ret@, k),
+            all_jumps_ok(ret@, ret@.len() as int),
     {
         let mut curr_loc: usize = 0;
         let mut locations = HashMap::<u32, usize>::new();
@@ -116,18 +138,31 @@ impl PreResolvedByteCode {
         for c in it: self.inner.iter()
             invariant
                 s == self.inner@,
+                s.len() < 0x7fff_ffff,
                 labels_unique(s),
                 curr_loc == nl_count(s, it.index@ as int),
-                forall|l: u32| locations@.contains_key(l) ==> exists|j: int| 0 <= j < it.index@ && label_at(s, j, l) && locations@[l] == nl_count(s, j),
-                forall|j: int, l: u32| 0 <= j < it.index@ && label_at(s, j, l) ==> locations@.contains_key(l),
+                loc_table_ok(s, locations@, it.index@ as int),
+                it.seq().len() == s.len(),
         {
             proof { lemma_nl_count_bounds(s, it.index@ as int); }
             match c {
                 PreResolvedCodePoint::Label(i) => {
+                    proof {
+                        assert(label_at(s, it.index@ as int, *i));
+                        if locations@.contains_key(*i) {
+                            let j = choose|j: int| 0 <= j < it.index@ && label_at(s, j, *i) && locations@[*i] == nl_count(s, j);
+                            assert(j == it.index@);
+                        }
+                    }
                     if locations.contains_key(i) {
                         panic!("Duplicate label found!");
                     }
                     locations.insert(*i, curr_loc);
+                    proof {
+                        assert forall|l: u32| #[trigger] locations@.contains_key(l) implies exists|j: int| 0 <= j < it.index@ + 1 && label_at(s, j, l) && locations@[l] == nl_count(s, j) by {
+                            if l == *i { assert(label_at(s, it.index@ as int, l)); }
+                        }
+                    }
                 }
                 _ => {
                     curr_loc += 1;
@@ -136,55 +171,71 @@ impl PreResolvedByteCode {
         }
 
         curr_loc = 0;
-        assert(loc_table_ok(s, locations@));
         let ghost total = nl_count(s, s.len() as int);
 
         // resolve the label locations
         for c in it2: self.inner.into_iter()
             invariant
                 it2.seq() == s,
+                raw_jumps_ok(s),
                 s.len() < 0x7fff_ffff,
                 labels_defined(s),
-                loc_table_ok(s, locations@),
+                loc_table_ok(s, locations@, s.len() as int),
                 total == nl_count(s, s.len() as int),
                 curr_loc == nl_count(s, it2.index@ as int),
                 ret@.len() == curr_loc,
-                forall|k: int| 0 <= k < ret@.len() ==> jump_ok_n(ret@, k, total),
+                all_jumps_ok(ret@, total),
         {
-            proof {
-                lemma_nl_count_bounds(s, it2.index@ as int);
-                lemma_nl_count_bounds(s, s.len() as int);
-                lemma_nl_count_mono(s, it2.index@ as int + 1, s.len() as int);
-                assert(c == s[it2.index@ as int]);
-                if jump_label(c) is Some {
-                    let l = jump_label(c)->Some_0;
-                    let j = choose|j: int| label_at(s, j, l);
-                    lemma_nl_count_bounds(s, j);
-                    lemma_nl_count_mono(s, j, s.len() as int);
-                }
-            }
+            let ghost idx = it2.index@ as int;
             let ghost old_ret = ret@;
+            proof {
+                lemma_nl_count_bounds(s, idx);
+                lemma_nl_count_bounds(s, s.len() as int);
+                lemma_nl_count_mono(s, idx + 1, s.len() as int);
+                assert(0 <= idx < s.len());
+                assert(c == s[idx]);
+                assert(raw_jump_ok(s, idx));
+                if jump_label(s[idx]) is Some {
+                    assert(label_exists(s, jump_label(s[idx])->Some_0));
+                    lemma_lookup(s, locations@, jump_label(s[idx])->Some_0);
+                }
+                assert(nl_count(s, idx + 1) == nl_count(s, idx) + if is_label(s[idx]) { 0int } else { 1int });
+            }
             match c {
                 PreResolvedCodePoint::Bytecode(byte_code) => {
                     curr_loc += 1;
                     ret.push(byte_code);
+                    proof { assert forall|k: int| 0 <= k < ret@.len() implies #[trigger] jump_ok_n(ret@, k, total) by {
+                        if k < old_ret.len() { assert(jump_ok_n(old_ret, k, total)); }
+                    } }
                 }
                 PreResolvedCodePoint::Jmp { label } => {
+                    proof {
+                        assert(s[idx] == PreResolvedCodePoint::Jmp { label });
+                        assert(jump_label(s[idx]) == Some(label));
+                        assert(locations@.contains_key(label));
+                    }
                     curr_loc += 1;
-                    let jmp_loc = locations[&label];
+                    let jmp_loc = *locations.get(&label).unwrap();
                     let offset = (jmp_loc as isize) - (curr_loc as isize);
                     ret.push(ByteCode::Jmp(
                         i32::try_from(offset).expect("Attempt to jump farther than possible"),
                     ));
+                    proof { assert forall|k: int| 0 <= k < ret@.len() implies #[trigger] jump_ok_n(ret@, k, total) by {
+                        if k < old_ret.len() { assert(jump_ok_n(old_ret, k, total)); }
+                    } }
                 }
                 PreResolvedCodePoint::JmpCond { when, label } => {
                     curr_loc += 1;
-                    let jmp_loc = locations[&label];
+                    let jmp_loc = *locations.get(&label).unwrap();
                     let offset = (jmp_loc as isize) - (curr_loc as isize);
                     ret.push(ByteCode::JmpCond {
                         when,
                         dist: offset as i32,
                     });
+                    proof { assert forall|k: int| 0 <= k < ret@.len() implies #[trigger] jump_ok_n(ret@, k, total) by {
+                        if k < old_ret.len() { assert(jump_ok_n(old_ret, k, total)); }
+                    } }
                 }
                 PreResolvedCodePoint::Label(_) => {}
             }
